@@ -262,6 +262,7 @@ type hist = {
   mutable crashes : int;
   mutable refused : (int * int) list;  (* (target, index): the device's latest answer to this change was a refusal *)
   before_change : (int * int, (string * string) list * (string * bool) list) Hashtbl.t;
+  was_committed : (int * int, unit) Hashtbl.t;  (* (target, index): the committed index of the target has been that index *)
   (* (target, index) -> what Get showed just before that change was merged, and the change's (path, deleted) list *)
 }
 let hists : (string, hist) Hashtbl.t = Hashtbl.create 64
@@ -269,7 +270,7 @@ let hist_of id =
   let h = List.hd (String.split_on_char ':' id) in
   match Hashtbl.find_opt hists h with
   | Some x -> x
-  | None -> let x = { prev = None; kind = "atomic"; failed_apply = false; rollbacks = 0; crashes = 0; refused = []; before_change = Hashtbl.create 8 } in Hashtbl.replace hists h x; x
+  | None -> let x = { prev = None; kind = "atomic"; failed_apply = false; rollbacks = 0; crashes = 0; refused = []; before_change = Hashtbl.create 8; was_committed = Hashtbl.create 8 } in Hashtbl.replace hists h x; x
 
 (* C09: the results of the no-effect proposal reconciles since the last state-changing step of a history *)
 let c09_results : (string, ((int * int) * string) list) Hashtbl.t = Hashtbl.create 64
@@ -516,9 +517,17 @@ let monitors id (label : sx) (pre : istate) (post : istate) (dl : (n * n * n * r
             | PChange _ -> if int_of_n p1.p_rbindex <> int_of_n c0.c_index then
                 specviol id "c06_rollback_index_not_recorded" (Printf.sprintf "proposal %d-%d recorded rollback index %s, the configuration was at index %s" t i (sn p1.p_rbindex) (sn c0.c_index))
             | _ -> ());
-         (* C01: a proposal is COMMITTED only when the committed index covers it *)
-         if p0.p_commit = Some Doing && p1.p_commit = Some Done && int_of_n c1.c_committed < i then
-           specviol id "c01_committed_without_merge" (Printf.sprintf "proposal %d-%d is COMMITTED, committed index of the target is %s" t i (sn c1.c_committed))
+         (* C01: a proposal is COMMITTED only when the committed index covers it - and has BEEN its index: the committed
+            index moves from p_prev to i by proposal i only (C02_committed_moves_by_successor), one move per invocation,
+            so the merge of a COMMITTED proposal is a state this history has shown *)
+         let wc = (hist_of id).was_committed in
+         Hashtbl.replace wc (t, int_of_n c0.c_committed) (); Hashtbl.replace wc (t, int_of_n c1.c_committed) ();
+         if p0.p_commit = Some Doing && p1.p_commit = Some Done then begin
+           if int_of_n c1.c_committed < i then
+             specviol id "c01_committed_without_merge" (Printf.sprintf "proposal %d-%d is COMMITTED, committed index of the target is %s" t i (sn c1.c_committed))
+           else if not (Hashtbl.mem wc (t, i)) then
+             specviol id "c01_committed_without_merge" (Printf.sprintf "proposal %d-%d is COMMITTED, but the committed index of the target went to %s without ever being %d: its values were never merged" t i (sn c1.c_committed) i)
+         end
        | _ -> ());
       (* C07/C01: an abort that has started is never turned into a commit, and the other way round *)
       if p0.p_abort <> None && p1.p_abort = None then specviol id "c07_abort_forgotten" (Printf.sprintf "proposal %d-%d" t i);
